@@ -86,7 +86,7 @@ def cases(rnd, n):
             if names[0] != "PROGRAM10" and rnd.random() < 0.6:
                 sel = rnd.choice([[0], [1], [0, len(names) - 1], [len(names) - 1]])
         out.append({"seed": rnd.randrange(1 << 30), "names": names, "srckind": srckind, "sw": sw, "select": sel,
-                    "how": rnd.choice(["same", "upper", "lower", "swap"]), "lens": [rnd.choice([1, 20, 255, 256, 300, 2294, 2295, 2304, 5000]) for _ in range(3)],
+                    "how": rnd.choice(["same", "upper", "lower", "swap"]), "lens": [rnd.choice([1, 20, 255, 256, 300, 2294, 2295, 2304, 5000]) for _ in range(3)] if k % 7 != 3 else [rnd.choice([30000, 20000, 52000, 16000, 100]) for _ in range(3)],   # every 7th: files of many granules
                     "kinds": [rnd.choice([(2, 0), (2, 0), (0, 0), (1, 255), (2, 255), (1, 0), (0, 255), (3, 255)]) for _ in range(3)], "gapped": rnd.random() < 0.3})
     return out
 
